@@ -33,6 +33,11 @@ chk("C07", "model_checking",
     "Restart = kill after Commit returned; graceful in-place reopen is impossible in-process (Stop() leaves 3 stores open).",
     "exhaustive enumeration of restart sets x deviation-bounded histories, twin oracle", "§5 C07")
 
+chk("C08", "fault_enumeration",
+    "Crash-point enumeration: for every block of every history of a family (dense history in 2 variants, small-stake/evidence history, 12-block history crossing the reward-hash record, every single appended deviation) the data directory is snapshotted after BeginBlock, after each DeliverTx, after EndBlock and inside a hook after EVERY durable write of Commit; every distinct snapshot is reopened, reconciled like Tendermint's handshake, the interrupted block replayed and the remaining blocks compared with the never-crashed replica. One genuine defect (mixed-version stores after a crash inside Commit) is recorded as known finding KF-C08-partial-commit with its 11 crash sites; any other site or kind still fails the check.",
+    "Process-death crash model at durable-write granularity; torn LevelDB batches / power-loss reordering are the store's contract.",
+    "exhaustive crash-point enumeration via write hooks + directory snapshots, recovery compared with never-crashed twin", "§5 C08")
+
 ALL = ["C%02d" % i for i in range(1, 21)]
 PENDING_REASON = "check under construction in this round (model-checking harness not yet registered); see DESIGN.md §5"
 
